@@ -360,10 +360,12 @@ pub fn generate(rng: &mut Rng, cfg: &Config) -> Program {
     let mut resources: Vec<Res> = Vec::new();
     let mut used_registers: Vec<(char, u32, u32)> = Vec::new();
     let mut static_sampler_error_pending = inject == Some("static-sampler-error:unknown-property");
+    let generated_spelling_at = if n > 0 && rng.chance(1, 6) { Some(rng.below(n)) } else { None };
     for i in 0..n {
         // a sampler early on makes the Sample() uses possible
         let kind: &'static str = if i == 0 && rng.chance(1, 2) { "SamplerState" } else { *rng.pick(KINDS) };
-        let name = format!("g_res{}", i);
+        // a source name spelled like the name the exporters generate for an overload of `pick` (declared with the helpers below)
+        let name = if Some(i) == generated_spelling_at { format!("pick_{}", rng.below(2)) } else { format!("g_res{}", i) };
         let mut decl = String::new();
         let group = if rng.chance(1, 3) { Some(rng.below(4) as u32) } else { None };
         let can_array = !kind.starts_with("ConstantBuffer") && !kind.starts_with("Raytracing");
@@ -513,6 +515,13 @@ pub fn generate(rng: &mut Rng, cfg: &Config) -> Program {
         let b = body(rng, &resources, ncb, &helper_names, &mut features, 1);
         text.push_str(&format!("float4 {}(float4 acc_in, uint ui_in)\n{{\n    float4 acc = acc_in;\n    uint ui = ui_in;\n    int si = 1;\n{}    return acc + (float)ui;\n}}\n\n", name, b));
         helper_names.push(name);
+    }
+    if generated_spelling_at.is_some() {
+        // an overload set: its members are exported under generated names pick_0 / pick_1, next to the resource of that spelling
+        text.push_str("float4 pick(float4 acc_in, uint ui_in)\n{\n    return acc_in + (float)ui_in;\n}\n\nfloat4 pick(float4 acc_in, float f_in)\n{\n    return acc_in * f_in;\n}\n\n");
+        text.push_str("float4 pick_both(float4 acc_in, uint ui_in)\n{\n    return pick(acc_in, ui_in) + pick(acc_in, 0.5f);\n}\n\n");
+        helper_names.push("pick_both".into());
+        features.push("overloads-next-to-generated-spelling".into());
     }
     match inject {
         Some("type-error:unknown-identifier") => text.push_str("void broken_function()\n{\n    int bad_value = g_undefined_symbol;\n}\n\n"),
